@@ -1,57 +1,66 @@
 #!/venv/bin/python
-"""tools/seed_table.py: re-runs every seeded change under /verif/seeded against the check of its property (and
-the extra checks recorded in its meta.json), one at a time on /repo (applied, then undone), preserves the
-evidence directory, updates meta.json['final'] and prints a markdown table for DESIGN.md."""
+"""tools/seed_table.py [names...]: re-runs every seeded change under /verif/seeded against the quick check of its
+property (and the extra checks recorded in its meta.json) and writes the table of DESIGN.md section 13.7 to
+/verif/seeded/TABLE.md; meta.json['final'] is refreshed. Each change is tried in a scratch git worktree of /repo
+with the patch applied and a scratch copy of /verif (VERIF_REPO / VERIF_ROOT), four at a time; /repo and
+/verif/evidence are not touched. (tools/accept_seed.py without SCRATCH=1 does the same against /repo itself.)"""
 import glob
 import json
 import os
-import shutil
 import subprocess
 import sys
+from concurrent.futures import ThreadPoolExecutor
 
 
-def sh(cmd, cwd=None, timeout=3600):
-    p = subprocess.run(cmd, shell=True, cwd=cwd, stdout=subprocess.PIPE, stderr=subprocess.STDOUT, text=True, timeout=timeout)
+def sh(cmd, cwd=None, env=None, timeout=3600):
+    p = subprocess.run(cmd, shell=True, cwd=cwd, env=env, stdout=subprocess.PIPE, stderr=subprocess.STDOUT, text=True,
+                       timeout=timeout)
     return p.returncode, p.stdout
 
 
+def one(d):
+    name = os.path.basename(d)
+    meta = json.load(open(d + '/meta.json'))
+    checks = list(meta.get('checks', {}).keys()) or [meta['property']]
+    if meta['property'] not in checks:
+        checks.insert(0, meta['property'])
+    sr, sv = f'/tmp/sr_t_{name}', f'/tmp/sv_t_{name}'
+    sh(f'git -C /repo worktree remove --force {sr}; rm -rf {sr} {sv}')
+    rc, out = sh(f'git -C /repo worktree add --detach {sr} HEAD && git -C {sr} apply {d}/patch.diff')
+    if rc != 0:
+        sh(f'git -C /repo worktree remove --force {sr}')
+        return (name, meta['property'], 'patch does not apply', '')
+    sh(f'mkdir -p {sv} && rsync -a --exclude .git --exclude evidence --exclude replays /verif/ {sv}/ && mkdir -p {sv}/evidence')
+    final = {}
+    try:
+        for c in checks:
+            rc, out = sh(f'./check {c} quick', cwd=sv, env=dict(os.environ, VERIF_ROOT=sv, VERIF_REPO=sr))
+            lines = [l.strip() for l in out.splitlines() if l.startswith('VIOLATION')]
+            how = 'missed'
+            if rc == 1 and lines:
+                how = 'no-failing-input-found' if 'no-failing-input-found' in lines[0] else 'failing input'
+            i = next((k for k, l in enumerate(out.splitlines()) if l.startswith('VIOLATION')), None)
+            desc = out.splitlines()[i + 1].strip() if i is not None and i + 1 < len(out.splitlines()) else ''
+            failed = [l.strip() for l in out.splitlines() if 'failed obligation' in l]
+            final[c] = dict(exit=rc, how=how, first=(desc or '; '.join(failed))[:220].replace(sv, '/verif'))
+    finally:
+        sh(f'git -C /repo worktree remove --force {sr}; rm -rf {sr} {sv}')
+    meta['final'] = final
+    json.dump(meta, open(d + '/meta.json', 'w'), indent=1)
+    own = final.get(meta['property'], {})
+    others = '; '.join(f'{c}: {v["how"]}' for c, v in final.items() if c != meta['property'])
+    row = (name, meta['property'], own.get('how', '?'), own.get('first', ''), others)
+    print(row, flush=True)
+    return row
+
+
 only = sys.argv[1:]
-rows = []
-assert subprocess.run('git -C /repo diff --quiet', shell=True).returncode == 0, '/repo dirty'
-shutil.rmtree('/tmp/evidence_backup', ignore_errors=True)
-shutil.copytree('/verif/evidence', '/tmp/evidence_backup')
-try:
-    for d in sorted(glob.glob('/verif/seeded/*')):
-        name = os.path.basename(d)
-        if only and name not in only:
-            continue
-        meta = json.load(open(d + '/meta.json'))
-        checks = list(meta.get('checks', {}).keys()) or [meta['property']]
-        rc, out = sh(f'git -C /repo apply {d}/patch.diff')
-        if rc != 0:
-            rows.append((name, meta['property'], 'patch does not apply', ''))
-            continue
-        final = {}
-        try:
-            for c in checks:
-                rc, out = sh(f'./check {c} quick', cwd='/verif')
-                lines = [l.strip() for l in out.splitlines() if l.startswith('VIOLATION')]
-                how = 'missed'
-                if rc == 1 and lines:
-                    how = 'correspondence/bridge only (no-failing-input-found)' if 'no-failing-input-found' in lines[0] \
-                        else 'failing input found by the monitor'
-                desc = next((l.strip() for l in out.splitlines() if l.startswith('  ') and 'failed obligation' not in l), '')
-                final[c] = dict(exit=rc, how=how, first=desc[:200])
-        finally:
-            sh('git -C /repo checkout -- .')
-        meta['final'] = final
-        json.dump(meta, open(d + '/meta.json', 'w'), indent=1)
-        rows.append((name, meta['property'], '; '.join(f'{c}: {v["how"]}' for c, v in final.items()),
-                     final[meta['property']]['first'] if meta['property'] in final else ''))
-        print(rows[-1], flush=True)
-finally:
-    shutil.rmtree('/verif/evidence', ignore_errors=True)
-    shutil.move('/tmp/evidence_backup', '/verif/evidence')
-print('\n| seeded change | property | result per check | first report of the property\'s own check |\n|---|---|---|---|')
+dirs = [d for d in sorted(glob.glob('/verif/seeded/*')) if os.path.isdir(d) and (not only or os.path.basename(d) in only)]
+with ThreadPoolExecutor(4) as ex:
+    rows = list(ex.map(one, dirs))
+lines = ['| seeded change | property | its own check | first report | other checks tried |', '|---|---|---|---|---|']
 for r in rows:
-    print(f'| {r[0]} | {r[1]} | {r[2]} | {r[3].replace("|", "/")} |')
+    lines.append('| ' + ' | '.join(str(x).replace('|', '/') for x in r) + ' |')
+if not only:
+    open('/verif/seeded/TABLE.md', 'w').write('\n'.join(lines) + '\n')
+print('\n'.join(lines))
